@@ -38,13 +38,15 @@ SPEC = {
                   "expired for any run keep inode and content; a local.* file is never removed, never re-created, and its "
                   "body never changes once written; every report body written folds in each count file at most once and "
                   "only expired files of its own week; once local.W.json exists and earlier runs have returned no later run "
-                  "creates W.json or local.W.json again. The model is tied to the code by lock-step differential execution of "
+                  "creates W.json or local.W.json again; with all uploaders in mode local the one local.W.json folds in ALL "
+                  "of the week's files expired for its author. The model is tied to the code by lock-step differential execution of "
                   "the extracted model against the real uploader whose 'os'/'net/http' imports are rewritten to yielding shims.",
     "level_note": "REFUTED clause (kept as C07_concurrent_whole_week_refuted + known finding subset_report): with three "
                   "concurrent uploaders in mode on, local.W.json can fold in a strict subset of the week's files; the positive "
-                  "'none missed' statement is proved for the sequential case only (C07_concurrent_single_report_partial covers "
-                  "uniqueness/immutability for any N; 2 concurrent uploaders and mode local are covered by the suite's sweeps "
-                  "only). one_report_per_week has the premise that the ready-file names of the directory's OTHER weeks do not "
+                  "'none missed' statement is proved for the sequential case (any mode) and, for any number of concurrent "
+                  "uploaders, when all run in mode local (C07_concurrent_whole_week_mode_local); uniqueness/immutability "
+                  "(C07_concurrent_single_report_partial) and no-file-twice hold for any N in any mode; two concurrent "
+                  "uploaders in mode on are covered by the suite's sweeps only. one_report_per_week has the premise that the ready-file names of the directory's OTHER weeks do not "
                   "contain W as a substring (true for dates; discharged for the concrete example, not in general). Count-file "
                   "contents are abstract (result of counter.Parse + span extraction: begin, end, program identity, counters); "
                   "report bodies are abstract (week, lastWeek, filtered?, list of count files folded, author); per-program "
@@ -61,5 +63,5 @@ SPEC = {
     ],
     "trusted_base": [],
     "own_objects": ["theories/Props/C07.vo", "theories/Proofs/UploaderSeq.vo", "theories/Proofs/UploaderEver.vo",
-                    "theories/Proofs/UploaderData.vo", "theories/Proofs/UploaderFiles.vo", "theories/Proofs/UploaderIdem.vo", "theories/Proofs/UploaderNoDup.vo"],
+                    "theories/Proofs/UploaderData.vo", "theories/Proofs/UploaderFiles.vo", "theories/Proofs/UploaderIdem.vo", "theories/Proofs/UploaderNoDup.vo", "theories/Proofs/UploaderLocal.vo"],
 }
